@@ -6,13 +6,20 @@ DecoyKindsDef == {"derivatives", "code", "othersuffix"}
 NoExcluded == {}
 
 AllShapes == [nsub : 1..2, nses : 0..2, ntask : 1..2, nrun : 1..2]
-SmallShapes == [nsub : 1..2, nses : 0..1, ntask : 1..2, nrun : 1..2]
-QuickShapes == {sh \in [nsub : 1..2, nses : 0..2, ntask : 1..2, nrun : 1..2] :
-                   sh.nsub + sh.nses + sh.ntask + sh.nrun <= 5}
-OneShape == {[nsub |-> 1, nses |-> 1, ntask |-> 2, nrun |-> 1]}
+NEvents(sh) == sh.nsub * (IF sh.nses = 0 THEN 1 ELSE sh.nses) * sh.ntask * sh.nrun
+Shape(a, b, c, d) == [nsub |-> a, nses |-> b, ntask |-> c, nrun |-> d]
+Tiny == {Shape(1, 0, 1, 1)}
+OneSes == {Shape(1, 1, 1, 1)}
+OneShape == {Shape(1, 1, 2, 1)}
+UpTo4 == {sh \in AllShapes : NEvents(sh) <= 4}
+\* exhaustive generation, quick: no session level or a single file below a session
+GenQuick == {Shape(1, 0, 1, 1), Shape(1, 0, 2, 1), Shape(2, 0, 1, 1), Shape(1, 0, 1, 2), Shape(1, 1, 1, 1)}
+GenThorough == {sh \in AllShapes : NEvents(sh) <= 2} \cup {Shape(2, 0, 2, 1), Shape(2, 0, 1, 2)}
 
 \* design runs: every decoy set with every shape
 AnyDecoy(sh, d) == TRUE
+TwoDecoy(sh, d) == d = {} \/ d = DecoyKindsDef
+NoDecoy(sh, d) == d = {}
 \* generation runs: one decoy set per shape (rotating), so that the number of trees stays replayable
 DecoyList == <<{"derivatives"}, {"code", "othersuffix"}, {}, {"derivatives", "othersuffix"}>>
 RotDecoy(sh, d) == d = DecoyList[((sh.nsub + 2 * sh.nses + sh.ntask + 2 * sh.nrun) % 4) + 1]
@@ -21,10 +28,10 @@ F == AllFiles
 G == Inheritable(F)
 PathMap(m) == [c \in DOMAIN m |-> Path(m[c])]
 
-EvOut == {[path |-> Path(f), chain |-> [i \in 1..Len(Chain(G, f)) |-> Path(Chain(G, f)[i])], merged |-> PathMap(Merged(G, f))]
-            : f \in Targets(F)}
-ScOut == {[path |-> Path(s), cols |-> s.cols, chain |-> [i \in 1..Len(Chain(G, s)) |-> Path(Chain(G, s)[i])],
-           merged |-> PathMap(Merged(G, s))] : s \in Sidecars(F)}
+PathSeq(ch) == [i \in 1..Len(ch) |-> Path(ch[i])]
+EvOut == {LET ch == Chain(G, f) IN [path |-> Path(f), chain |-> PathSeq(ch), merged |-> PathMap(Fold(ch))] : f \in Targets(F)}
+ScOut == {LET ch == Chain(G, s) IN [path |-> Path(s), cols |-> s.cols, chain |-> PathSeq(ch), merged |-> PathMap(Fold(ch))]
+            : s \in Sidecars(F)}
 DecoyOut == {[path |-> Path(f), ext |-> f.ext, cols |-> f.cols] : f \in DecoyFiles(decoy)}
 Emit == PrintT("@@EMIT@@" \o ToJson([shape |-> shape, decoy |-> decoy, nsc |-> Cardinality(scs),
                                        events |-> EvOut, sidecars |-> ScOut, decoys |-> DecoyOut]))
